@@ -110,7 +110,19 @@ points, and to the histories through a *second* per-group PRNG stream so that th
 except where a new shape occurs - with coverage floors for each. The lesson is recorded in section 7: a generator built
 from what the code reads today does not cover what a changed version might start to read.
 
-After that all one hundred and forty-five are caught by the quick check of the property they were written against
+A ninth round repeated the adversarial brief with the shapes of the eighth round excluded: 12 changes, one rejected on
+confirmation (the repository's own suite fails with it), 7 of the remaining 11 caught at first try. Three misses were again
+unread fields, now added: a deletion timestamp on a *Node* held by a finalizer (C08-8: such nodes dropped before the
+oldest-first sort), pod-level `spec.resources` (C13-10), a CreateFleet answer with errors *and* fewer instances than asked
+for (C18-7: the acquired ones leak) - plus the mirror-pod annotation, which the rejected change used. The node and pod
+fields are drawn from a *third* PRNG stream reserved for fields that neither escalator, the oracle nor the simulated world
+reads, so every history's observable behaviour on the unchanged tree is exactly what it was before they were added.
+**One change is not caught and stays that way: `C14-7`** gives the pod informer a `Transform` that strips annotations
+before caching, so static pods are no longer recognised. It lives in `pkg/k8s/cache.go`, the informer construction that
+every check replaces by harness-owned listers (section 7); the filters and filtered listers are executed, the informer
+store is not. It is kept in `seeded/` with `"result": "MISSED"`.
+
+After that one hundred and fifty-five of the one hundred and fifty-six are caught by the quick check of the property they were written against
 (`bin/regress_seeded` re-runs all of them against a scratch copy of /repo and rewrites the `detection` entries).
 
 | Seeded change | Files | What was changed | Needs, to manifest | Quick check of that property |
